@@ -419,6 +419,26 @@ fn run_vm_sched(src: &str, times: usize) -> Result<Vec<f64>, String> {
     driver.play();
     Ok(driver.get_generated_samples().to_vec())
 }
+/// the same, rendered block-wise: `nblocks` calls of play() with `block` samples each on ONE driver (what a real-time host
+/// does); the sample clock has to continue across the calls
+fn run_vm_sched_blocks(src: &str, block: usize, nblocks: usize) -> Result<Vec<f64>, String> {
+    use mimium_audiodriver::{backends::local_buffer::LocalBufferDriver, driver::{Driver, RuntimeData}};
+    use mimium_lang::{Config, ExecContext, plugin::Plugin};
+    let mut driver = LocalBufferDriver::new(block as _);
+    let audiodriverplug: Box<dyn Plugin> = Box::new(driver.get_as_plugin());
+    let mut ctx = ExecContext::new([audiodriverplug].into_iter(), None, Config::default());
+    ctx.add_system_plugin(mimium_scheduler::get_default_scheduler_plugin());
+    ctx.prepare_machine(src).map_err(|e| e.iter().map(|x| x.get_message()).collect::<Vec<_>>().join("; "))?;
+    let _ = ctx.run_main();
+    let runtimedata = { let c: &mut ExecContext = &mut ctx; RuntimeData::try_from(c).map_err(|_| "no runtime data".to_string())? };
+    driver.init(runtimedata, None);
+    let mut out = vec![];
+    for _ in 0..nblocks {
+        driver.play();
+        out.extend_from_slice(driver.get_generated_samples());
+    }
+    Ok(out)
+}
 fn schedvm_programs() -> Vec<(String, Vec<f64>, String)> {
     let mut v = vec![];
     let n = 8usize;
@@ -697,11 +717,24 @@ fn main() {
         for (i, (src, expect, desc)) in progs.iter().enumerate() {
             if let Some(o) = only { if o != i { continue; } }
             let got = std::panic::catch_unwind(|| run_vm_sched(src, expect.len()));
-            let bad = match got {
+            let mut bad = match got {
                 Ok(Ok(v)) => if v == *expect { None } else { Some(format!("got {v:?} expected {expect:?}")) },
                 Ok(Err(e)) => Some(format!("rejected: {e}")),
                 Err(_) => Some("the VM scheduler panicked".to_string()),
             };
+            // ... and rendered in blocks (2 and 1 samples per play() call): the sample clock continues across the calls
+            if bad.is_none() {
+                for block in [2usize, 1] {
+                    if expect.len() % block != 0 { continue; }
+                    let gotb = std::panic::catch_unwind(|| run_vm_sched_blocks(src, block, expect.len() / block));
+                    match gotb {
+                        Ok(Ok(v)) => if v != *expect { bad = Some(format!("rendered in blocks of {block}: got {v:?} expected {expect:?}")); },
+                        Ok(Err(e)) => bad = Some(format!("rejected: {e}")),
+                        Err(_) => bad = Some("the VM scheduler panicked".to_string()),
+                    }
+                    if bad.is_some() { break; }
+                }
+            }
             if args[1] == "schedvm-run" {
                 match bad { Some(c) => println!("FAILS SchedulerAudioWorker::on_sample::ensures[{desc}] {c}"), None => println!("HOLDS") }
                 return;
@@ -787,7 +820,11 @@ fn main() {
     if args.get(1).map(|s| s.as_str()) == Some("type-serde-search") || args.get(1).map(|s| s.as_str()) == Some("type-serde-run") {
         let only: Option<usize> = args.get(2).and_then(|s| s.parse().ok());
         match type_serde_violation(only) {
-            Some((i, v, c)) => println!("{} index={i} value={v} clause={c}", if args[1] == "type-serde-run" { "FAILS" } else { "FOUND" }),
+            Some((i, v, c)) => {
+                // one line: the Debug form of Type is multi-line
+                let one = |s: String| s.split_whitespace().collect::<Vec<_>>().join(" ");
+                println!("{} index={i} value={} clause={}", if args[1] == "type-serde-run" { "FAILS" } else { "FOUND" }, one(v), one(c))
+            }
             None => println!("{}", if args[1] == "type-serde-run" { "HOLDS" } else { "NONE" }),
         }
         return;
